@@ -638,3 +638,40 @@ macro_rules! read_fixed_chunked {
 }
 read_fixed_chunked!(c38_q_read_i32_refill3, i32, 4, read_i32);
 read_fixed_chunked!(c38_q_read_i64_refill3, i64, 8, read_i64);
+
+/// A length-delimited read (`read_bytes`, concrete length 5: a symbolic `Vec`
+/// length is what exhausts CBMC) through the same 3-byte-refill reader after a
+/// symbolic skip: the bytes returned are the next five input bytes across the
+/// refill boundaries, and too few remaining bytes is an error.
+#[kani::proof]
+#[kani::unwind(12)]
+fn c38_q_read_bytes_refill3() {
+    let bytes: [u8; 9] = kani::any();
+    let n: usize = kani::any();
+    kani::assume(n <= 9);
+    let mut r = ValueReader::new(Chunked { buf: &bytes[..n], pos: 0, chunk: 3 });
+    let pre: usize = kani::any();
+    kani::assume(pre <= 3 && pre <= n);
+    match r.skip(pre) {
+        Ok(()) => {}
+        Err(e) => std::mem::forget(e),
+    }
+    match r.read_bytes(5) {
+        Ok(b) => {
+            kani::cover!(pre == 2, "field straddles two refills");
+            assert!(n - pre >= 5, "bytes field read from too few bytes");
+            assert!(b.len() == 5);
+            let mut i = 0;
+            while i < 5 {
+                assert!(b[i] == bytes[pre + i], "bytes field differs from the input");
+                i += 1;
+            }
+            assert!(r.position() == (pre + 5) as u64);
+            std::mem::forget(b);
+        }
+        Err(e) => {
+            assert!(n - pre < 5, "bytes field rejected although enough bytes remain");
+            std::mem::forget(e);
+        }
+    }
+}
